@@ -55,10 +55,10 @@ pub fn run_threads(w: &mut dyn WorldApi, g: &mut Gen, ev: &mut Ev, iters: u64, b
             (Err(p), _, _) | (_, Err(p), _) | (_, _, Err(p)) => {
                 if p.harness() {
                     ev.inconclusive(&format!("harness error: {} at {}", p.msg, p.site()));
-                } else if ev.prop != "C14" {
+                } else if ev.prop != "C14" && ev.prop != "C20" {
                     ev.inconclusive("worker panic (owned by C14/C20)");
                 } else {
-                    ev.violation(&format!("C14/threads/panic/{}", p.sig()), format!("[{}] worker panicked: {} at {}", w.kind(), p.msg, p.site()), rj);
+                    ev.violation(&format!("{}/threads/panic/{}", ev.prop.clone(), p.sig()), format!("[{}] worker panicked: {} at {}", w.kind(), p.msg, p.site()), rj);
                 }
                 return;
             }
@@ -113,6 +113,10 @@ pub fn run_threads(w: &mut dyn WorldApi, g: &mut Gen, ev: &mut Ev, iters: u64, b
         let (la, _) = w.len(Slot::Map(0));
         let (la2, _) = w.len(Slot::Map(2));
         let la = if la2 != a2.len() { la2 } else { la };
+        if la != a.len() && ev.prop == "C20" {
+            ev.inconclusive("len() differs after threaded mutation (owned by C04/C14)");
+            continue;
+        }
         if la != a.len() {
             ev.violation(&format!("{}/threads/len", ev.prop.clone()), format!("[{}] after threaded mutation len() = {} but {} entries", w.kind(), la, a.len()), rj);
             return;
